@@ -88,7 +88,13 @@ CLASS NAMES (program.classes / Def.flags)
         reuse reuse-cross-file array-literal expr-length length-1 struct-array alias-field nested-depth-<n>
         cross-file-struct-field cross-file-message-field message-in-message struct-contains-message
         alias-of-imported-struct-field explicit-padding needs-padding zero-length prefix-names big
+Faulty closures for parse histories (C12): inject_fault(program, kind, ch, where=None) with kind in FAULT_KINDS
+    ("missing-import", "no-id", "no-fields", "signal-as-field-type"); expected_error = FAULT_ERRORS[kind] (not a ParserError)
+FileSpec.compiler_options {"AUTO_PAD"|"VALIDATE_ALIGNMENT"|"IMPORT_COREDEFS": bool} is rendered as a ``compiler_options:`` section
 DEFAULT-ON classes added 2026-10-04 (plain documented syntax)
+    alias chains: alias-of-alias(-of-alias) ending in an imported struct or a native (classes "alias-chain-to-struct-<n>",
+        "alias-chain-to-native-<n>", n = 2..3), used as scalar field type, array element ("alias-chain-field-to-struct/native",
+        "struct-array") and as target of further aliases; "alias-of-imported-struct[-field]" are therefore always on
     const-family / family-expr / family-length: constants whose names are prefixes, suffixes or infixes of one another
         (N, N1, N10, MAX_N, N_MAX, NN, NS ...) used TOGETHER in constant expressions and in array-length expressions, shorter
         name first and longer name first; Def.value / FieldSpec.length carry the word-bounded (correct) result
@@ -97,6 +103,9 @@ OPT_IN classes (never produced unless listed in ``allow``; each is tied to a kno
     "long-names": ~20% of the definition names get a drawn length from COVER_NAME_LENGTHS or 1..63 (classes "long-names",
         "name-length-<n>"/"name-length-other").  NOTE: on /repo 3e08c53 the C back end writes '#define MT_<name><value>'
         without a separator for names of >= 48 characters (constants, MT_, MID_, HID_; see scratch/fixes/c-define-long-name.diff)
+    "reserved-field-name": ~70% of the programs get (add_reserved_field_name(program, ch, name=None)) one field of one
+        message/struct renamed to one of RESERVED_FIELD_NAMES; the compiler must reject it: wellformed False,
+        expected_error "RTMASyntaxError", expect {"outcome","at","field"}, classes "reserved-field-name[/<name>]"
     "fractional-length": ~70% of the programs get (add_fractional_length(program, ch, variant=None)) one extra array field
         ``T[A / B]`` in one message, A and B fresh constants of that file; program.classes has "fractional-length" and
         "fractional-length/below-one" (0 < x < 1, e.g. 4/8), ".../zero" (0/8) or ".../truncated" (5/2):
@@ -143,7 +152,7 @@ BY_WIDTH = {w: [n for n, s in NATIVES.items() if s == w] for w in (1, 2, 4, 8)}
 LENGTHS = [1, 2, 3, 7, 8, 32, 255, 256, 1000]
 RESERVED_FIELD_NAMES = ("type_id", "type_name", "type_hash", "type_source", "type_def", "type_size", "hexdump")
 OPT_IN = ("alias-of-imported-struct", "alias-of-imported-struct-field", "struct-contains-message", "string-special",
-          "prefix-names", "zero-length", "long-names", "fractional-length")
+          "prefix-names", "zero-length", "long-names", "fractional-length", "reserved-field-name")
 COVER_NAME_LENGTHS = [1, 2, 31, 32, 40, 45, 46, 47, 48, 63]
 MAX_NAME_LENGTH = 63  # MATLAB's namelengthmax
 MAX_SIZE = 65535
@@ -401,6 +410,7 @@ class FileSpec:
     null_sections: List[str] = field(default_factory=list)
     header: List[str] = field(default_factory=list)
     import_comments: Dict[str, str] = field(default_factory=dict)
+    compiler_options: Dict[str, Any] = field(default_factory=dict)  # rendered as a ``compiler_options:`` section (root file; CLI only)
 
 
 @dataclass
@@ -465,6 +475,7 @@ class Program:
         self.relocated = relocated
         self.noise = None
         self.expected_error: Optional[str] = None  # exception class name an ill-formed program must be rejected with
+        self.fault: Optional[dict] = None
         self._files = files
         self._an = None
 
@@ -509,7 +520,7 @@ class Program:
         return {
             "root": self.root, "options": self.options, "shape": self.shape, "classes": sorted(self.classes),
             "wellformed": self.wellformed, "conflict": self.conflict, "expect": self.expect, "edited": self.edited,
-            "relocated": self.relocated, "noise": self.noise, "expected_error": self.expected_error, "files": dict(self.files), "specs": [asdict(s) for s in self.specs],
+            "relocated": self.relocated, "noise": self.noise, "expected_error": self.expected_error, "fault": self.fault, "files": dict(self.files), "specs": [asdict(s) for s in self.specs],
         }
 
     @classmethod
@@ -519,6 +530,7 @@ class Program:
                 files=dict(d["files"]) if d.get("files") else None, edited=d.get("edited"), relocated=d.get("relocated"))
         p.noise = d.get("noise")
         p.expected_error = d.get("expected_error")
+        p.fault = d.get("fault")
         return p
 
     def clone(self) -> "Program":
@@ -809,6 +821,8 @@ class _Analysis:
                         msg_ids[i] = f"_RESERVED_{i:06d}"
                     if len(ids) > 100:
                         prob(f"reserved range {txt} spans more than 100 ids")
+            if d.style.get("omit_id") or d.style.get("omit_fields"):
+                prob(f"{d.name}: definition without {'id' if d.style.get('omit_id') else 'fields'}")
             if d.kind in ("struct", "message"):
                 if d.reuse is not None:
                     q = names.get(d.reuse)
@@ -951,6 +965,10 @@ def _cmt(text: str) -> str:
 def render_file(s: FileSpec) -> str:
     ind = " " * s.indent
     lines: List[str] = list(s.header)
+    if s.compiler_options:
+        lines.append("compiler_options:")
+        for k, v in s.compiler_options.items():
+            lines.append(f"{ind}{k}: {'true' if v is True else 'false' if v is False else v}")
     by_sec: Dict[str, List[Def]] = {sec: [] for sec in SECTIONS}
     for d in s.defs:
         by_sec[d.section].append(d)
@@ -987,6 +1005,8 @@ def _render_def(d: Def, ind: str) -> List[str]:
         return [f"{ind}{d.name}: {d.value}{post}"]
     if d.kind in ("host", "module"):
         return [f"{ind}{d.name}: {d.text if d.text is not None else d.value}{post}"]
+    if d.kind == "struct" and d.style.get("omit_fields"):
+        return [f"{ind}{d.name}: {{}}{post}"]
     out = [f"{ind}{d.name}:{post}"]
     i2, i3 = ind * 2, ind * 3
     if d.kind == "reserved":
@@ -996,7 +1016,7 @@ def _render_def(d: Def, ind: str) -> List[str]:
         else:
             out.append(f"{i2}id: [{', '.join(str(t) for t, _ in d.entries)}]")
         return out
-    idline = [f"{i2}id: {d.style.get('id_text', d.id)}"] if d.kind in ("message", "signal") else []
+    idline = [f"{i2}id: {d.style.get('id_text', d.id)}"] if d.kind in ("message", "signal") and not d.style.get("omit_id") else []
     if d.kind == "signal":
         body = [f"{i2}fields: null"]
     elif d.reuse is not None:
@@ -1006,6 +1026,10 @@ def _render_def(d: Def, ind: str) -> List[str]:
         for f in d.fields:
             tt = f'"{f.type_text}"' if d.style.get("quote_types") else f.type_text
             body.append(f"{i3}{f.name}{f.sep}{tt}{_cmt(f.comment)}")
+    if d.style.get("omit_fields"):
+        body = []
+        if not idline:
+            idline = [f"{i2}id: {d.id}"] if d.kind in ("message", "signal") else [f"{i2}note: missing"]
     if d.style.get("id_last"):
         return out + body + idline
     return out + idline + body
@@ -1105,7 +1129,10 @@ class _Builder:
     def __init__(self, ch: Chooser, opts: Dict[str, bool], allow: Sequence[str], rich: bool):
         self.ch = ch
         self.opts = opts
-        self.allow = set(allow)
+        # aliases of imported structs (and fields typed by them) are documented syntax and part of the default domain since
+        # the repository's fixes for F15/F16; the two names stay valid in ``allow`` for callers that list them
+        self.allow = set(allow) | {"alias-of-imported-struct", "alias-of-imported-struct-field"}
+        self.chain: Dict[str, int] = {}  # alias name -> length of its alias chain (1 = alias of a native/struct)
         self.rich = rich
         self.names: Set[str] = set(core_defs()["names"]) | set(core_defs()["host_ids"]) | set(core_defs()["module_ids"])
         self.msg_ids: Set[int] = set()
@@ -1252,15 +1279,30 @@ class _Builder:
             if kind == "native":
                 add(Def("alias", name, path, value=ch.choice(NATIVE_NAMES), flags=["alias-native"]))
                 self.taint[name] = set()
+                self.chain[name] = 1
             elif kind == "alias":
-                tgt = ch.choice(al_imp + al_loc)
+                cands = [a for a in al_imp + al_loc if self.chain.get(a.name, 1) < 3]
+                to_struct = [a for a in cands if self.alias_size(a.name)[2]]
+                tgt = ch.choice(to_struct) if to_struct and ch.chance(0.6) else ch.choice(cands or al_imp + al_loc)
+                n = self.chain.get(tgt.name, 1) + 1
+                self.chain[name] = n
                 fl = ["alias-of-alias"] + (["alias-of-imported-alias"] if tgt.file != path else [])
+                fl.append(f"alias-chain-to-struct-{n}" if self.alias_size(tgt.name)[2] else f"alias-chain-to-native-{n}")
                 add(Def("alias", name, path, value=tgt.name, flags=fl))
                 self.taint[name] = set(self.taint.get(tgt.name, ()))
             else:
                 tgt = ch.choice(st_imp)
                 add(Def("alias", name, path, value=tgt.name, flags=["alias-of-imported-struct"]))
                 self.taint[name] = set(self.taint.get(tgt.name, ())) | {"alias-of-imported-struct-field"}
+                self.chain[name] = 1
+                prev = name
+                while self.chain[prev] < 3 and ch.chance(0.5):  # VERTEX: POINT / CORNER: VERTEX / ...
+                    nxt = self.fresh_name()
+                    n = self.chain[prev] + 1
+                    add(Def("alias", nxt, path, value=prev, flags=["alias-of-alias", f"alias-chain-to-struct-{n}"]))
+                    self.taint[nxt] = set(self.taint[prev])
+                    self.chain[nxt] = n
+                    prev = nxt
         # host / module ids -----------------------------------------------------------------------------
         for _ in range(quota["host"]):
             add(Def("host", self.fresh_name(), path, value=self.fresh_id(self.host_ids, 1, 32766), flags=["host-id"]))
@@ -1433,11 +1475,14 @@ class _Builder:
                 base = ch.choice(_NATIVE_POOL)
                 es = al = NATIVES[base]
             elif cat == "alias":
-                a = ch.choice(al_c)
+                chained = [x for x in al_c if self.chain.get(x.name, 1) >= 2]
+                a = ch.choice(chained) if chained and ch.chance(0.5) else ch.choice(al_c)
                 base = a.name
                 es, al, dep = self.alias_size(a.name)
                 depth = max(depth, dep + 1 if dep else depth)
                 fl.add("alias-field")
+                if self.chain.get(a.name, 1) >= 2:
+                    fl.add(f"alias-chain-field-to-{'struct' if dep else 'native'}")
                 taint |= self.taint.get(a.name, set())
                 if "alias-of-imported-struct-field" in self.taint.get(a.name, ()):
                     fl.add("alias-of-imported-struct-field")
@@ -1676,7 +1721,83 @@ def build_program(ch: Chooser, max_files: int = 6, min_files: int = 1, import_co
         raise GeneratorBug("generated program is not well-formed: " + "; ".join(probs[:5]) + "\n" + json.dumps(prog.files, indent=1))
     if "fractional-length" in allow and ch.chance(0.7):
         prog = add_fractional_length(prog, ch) or prog
+    if "reserved-field-name" in allow and prog.wellformed and ch.chance(0.7):
+        prog = add_reserved_field_name(prog, ch) or prog
     return prog
+
+
+def add_reserved_field_name(program: Program, ch: Chooser, name: Optional[str] = None, kinds: Sequence[str] = ("message", "message", "struct")) -> Optional[Program]:
+    """Near miss: copy of a well-formed program in which one field of one message (or struct) is renamed to one of
+    RESERVED_FIELD_NAMES (type_id, type_name, type_hash, type_source, type_def, type_size, hexdump).  The compiler must
+    reject it: wellformed False, expected_error "RTMASyntaxError", expect {"outcome": "RTMASyntaxError", "at": name};
+    classes "reserved-field-name", "reserved-field-name/<name>".  None if the program has no explicit field list."""
+    kind = ch.choice(list(kinds))
+    cands = [d for d in program.defs if d.kind == kind and d.fields] or [d for d in program.defs if d.kind in ("message", "struct") and d.fields]
+    if not cands:
+        return None
+    q = program.clone()
+    t = ch.choice(cands)
+    d = [x for x in q.spec(t.file).defs if x.name == t.name and x.kind == t.kind][0]
+    name = name or ch.choice(list(RESERVED_FIELD_NAMES))
+    f = ch.choice(d.fields)
+    f.name = name
+    cls = f"reserved-field-name/{name}"
+    d.flags = sorted(set(d.flags) | {"reserved-field-name", cls})
+    q.classes |= {"reserved-field-name", cls}
+    q.wellformed = False
+    q.expected_error = "RTMASyntaxError"
+    q.expect = {"outcome": "RTMASyntaxError", "at": d.name, "field": name}
+    q.rerender()
+    return q
+
+
+FAULT_KINDS = ["missing-import", "no-id", "no-fields", "signal-as-field-type"]
+FAULT_ERRORS = {"missing-import": "FileNotFoundError", "no-id": "KeyError", "no-fields": "KeyError", "signal-as-field-type": "AssertionError"}
+
+
+def inject_fault(program: Program, kind: str, ch: Chooser, where: Optional[str] = None) -> Optional[Program]:
+    """Copy of a well-formed program that the compiler aborts on with an exception that is NOT a ParserError (the parse
+    stops half way): an import of a file that does not exist (FileNotFoundError), a message without ``id`` or a
+    message/struct without ``fields`` (KeyError), a signal used as a field type (AssertionError).  ``where`` selects the
+    file ("root", "leaf" or None = drawn).  wellformed False, expected_error = FAULT_ERRORS[kind], ``fault`` = {"kind","file"}.
+    The file set and paths are those of ``program`` (so the corrected closure can overwrite it in place)."""
+    if kind not in FAULT_KINDS:
+        raise ValueError(kind)
+    q = program.clone()
+    order = q.file_order
+    if where == "root":
+        fpath = q.root
+    elif where == "leaf":
+        fpath = order[0]
+    else:
+        fpath = ch.choice(order)
+    spec = q.spec(fpath)
+    ctx = _Ctx(q, ch)
+    if kind == "missing-import":
+        ghost = posixpath.join(posixpath.dirname(fpath), "does_not_exist.yaml")
+        spec.imports.insert(ch.integer(0, len(spec.imports)), ["does_not_exist.yaml", ghost])
+    elif kind in ("no-id", "no-fields"):
+        pool = [d for d in spec.defs if d.kind == "message" or (kind == "no-fields" and d.kind == "struct")]
+        if pool and ch.chance(0.7):
+            d = ch.choice(pool)
+        else:
+            d = Def("message", ctx.fresh_name(), fpath, id=ctx.fresh_msg_id(), fields=[FieldSpec("v", "int32", "int32")])
+            _insert(spec, d, ch)
+        d.style["omit_id" if kind == "no-id" else "omit_fields"] = True
+    else:
+        sig = Def("signal", ctx.fresh_name(), fpath, id=ctx.fresh_msg_id())
+        msg = Def("message", ctx.fresh_name(), fpath, id=ctx.fresh_msg_id(), fields=[FieldSpec("a", "int32", "int32"), FieldSpec("s", sig.name, sig.name)])
+        spec.defs.append(sig)
+        spec.defs.append(msg)
+    q.wellformed = False
+    q.expected_error = FAULT_ERRORS[kind]
+    q.fault = {"kind": kind, "file": fpath}
+    q._files = None
+    q._an = None
+    if kind == "missing-import":
+        # the analysis would complain about the unknown file; render directly
+        q._files = {s_.path: render_file(s_) for s_ in q.specs}
+    return q
 
 
 FRACTIONAL_VARIANTS = ["below-one", "zero", "truncated"]
